@@ -18,7 +18,9 @@ ID = "C09"
 TECHNIQUE = "exhaustive enumeration of per-walker field histories (words over a fault alphabet incl. overflow letters) through real propagate() steps for every propagator class x dt x interaction x trial quality; invariants checked in every intermediate state"
 
 FIELD_LETTERS = [0.0, 1.0, -1.0, 4.0, -4.0, 40.0, -40.0, 1e4, -1e4, 1e154, -1e154]
-CPMC_LETTERS = [0.0, 1.0, -1.0, 40.0, -40.0]
+# +-8 maps to uniforms 6e-16 and 1-6e-16: the extreme values a Gaussian draw can produce while staying inside the
+# support [0,1) of the uniform variate (larger letters would give u == 1.0 exactly, which selects a *rejected* field)
+CPMC_LETTERS = [0.0, 1.0, -1.0, 8.0, -8.0]
 DTS = [1e-4, 1e-2, 0.3, 2.0]
 
 
@@ -319,8 +321,8 @@ def job(cfg):
 def run(ctx):
     ctx.rule = ("propagator class {restricted, unrestricted, cpmc, cpmc_slow, cpmc_nn, cpmc_nn_slow, cpmc_continuous} x dt {1e-4,1e-2,0.3,2} x "
                 "interaction {weak, strong} x trial {good, poor}; one population holds EVERY per-walker field history: all words of length "
-                "3 (4 thorough) over {0,+-1,+-4,+-40,+-1e4,+-1e154} (phaseless), all words over {0,+-1,+-40} per site and step (CPMC; +-40 "
-                "forces the discrete branch), all words over uniform letters {0,0.5,1-} for the neighbour propagators' internal draws; "
+                "3 (4 thorough) over {0,+-1,+-4,+-40,+-1e4,+-1e154} (phaseless), all words over {0,+-1,+-8} per site and step (CPMC; +-8 "
+                "forces the discrete branch while staying on the uniform's support), all words over uniform letters {0,0.5,1-} for the neighbour propagators' internal draws; "
                 "stepped one propagate() at a time, then block epilogue, then a second block; state = (class, setting, step, walker)")
     ctx.assume("the block epilogue (QR, energy with capping, shift update) is replayed with public calls exactly as sampler._block_scan does; the real sampler is also run once per setting for the killed fraction")
     ctx.pmap(job, configs(ctx.tier, ctx.seed))
